@@ -54,7 +54,7 @@ class Unit:
     """one harness binary: source + defines + build configuration"""
 
     def __init__(self, name, src, defs=(), build='ndebug', flags=(), link=('ref',), shards=1, args=(), cxx=None,
-                 ldflags=(), extra_srcs=(), timeout=None, run_env=None, bisect=None, label=None):
+                 ldflags=(), extra_srcs=(), timeout=None, run_env=None, bisect=None, label=None, two_step=False):
         self.name, self.src, self.defs, self.build = name, src, list(defs), build
         self.flags, self.link, self.shards, self.args = list(flags), list(link), shards, list(args)
         self.cxx = cxx or CXX
@@ -62,6 +62,9 @@ class Unit:
         self.extra_srcs = list(extra_srcs)
         self.timeout = timeout
         self.run_env = run_env
+        # two_step: compile the harness with self.cxx and self.flags (e.g. clang++ -fsanitize=thread -c) but link with plain g++,
+        # i.e. WITHOUT the sanitizer runtime (engine/sched/sched.cpp supplies the hooks)
+        self.two_step = two_step
         # bisect: list of (label, defs) — if this unit does not compile, each variant is compiled on its own so
         # that the entries that cannot be instantiated are named individually (and the others still run)
         self.bisect = bisect
@@ -78,6 +81,7 @@ class Unit:
 
     def key(self):
         srcs = [os.path.join(ROOT, self.src)] + [os.path.join(ROOT, s) for s in self.extra_srcs] + engine_headers()
+        srcs += [os.path.join(ROOT, SHARED[n][0]) for n in self.link if n in SHARED]
         h = hashlib.sha256()
         h.update(tree_hash().encode())
         h.update(files_hash(srcs).encode())
@@ -121,7 +125,7 @@ def build_obj(name, src, flags):
     return out
 
 
-SHARED = {'ref': ('engine/ref.cpp', ['-O2']), 'ref_asan': ('engine/ref.cpp', ['-O1', '-fsanitize=address', '-fno-omit-frame-pointer'])}
+SHARED = {'sched': ('engine/sched/sched.cpp', ['-O2', '-g']), 'ref': ('engine/ref.cpp', ['-O2']), 'ref_asan': ('engine/ref.cpp', ['-O1', '-fsanitize=address', '-fno-omit-frame-pointer'])}
 
 
 def shared_obj(name):
@@ -138,8 +142,18 @@ def build_unit(u):
     tmp = out + '.tmp%d' % os.getpid()
     objs = [shared_obj(n) for n in u.link]
     srcs = [os.path.join(ROOT, u.src)] + [os.path.join(ROOT, s) for s in u.extra_srcs]
-    cmd = [u.cxx] + u.all_flags() + INC + srcs + objs + ['-o', tmp] + u.ldflags + ['-lpthread']
-    r = subprocess.run(cmd, capture_output=True, text=True)
+    if u.two_step:
+        obj = tmp + '.o'
+        r = subprocess.run([u.cxx] + u.all_flags() + INC + ['-c', srcs[0], '-o', obj], capture_output=True, text=True)
+        if r.returncode != 0:
+            return (u, False, r.stderr[-6000:])
+        cmd = [CXX, obj] + objs + ['-o', tmp] + u.ldflags + ['-lpthread', '-ldl', '-rdynamic']
+        r = subprocess.run(cmd, capture_output=True, text=True)
+        if os.path.exists(obj):
+            os.remove(obj)
+    else:
+        cmd = [u.cxx] + u.all_flags() + INC + srcs + objs + ['-o', tmp] + u.ldflags + ['-lpthread']
+        r = subprocess.run(cmd, capture_output=True, text=True)
     if r.returncode != 0:
         return (u, False, r.stderr[-6000:])
     os.replace(tmp, out)
